@@ -968,11 +968,20 @@ def b_op_intersects(ex, st, a, m, c):
         fr = st.frames[-1]
         k = None
         dn = fr.fn.debug.get("periodic_range")
-        if dn:
-            mm = re.match(r"_(\d+)$", dn[0])
+        for dname in reversed(dn or []):
+            # the innermost binding that has a value (the name may be shadowed)
+            mm = re.match(r"_(\d+)$", dname)
             if mm and int(mm.group(1)) in fr.locals:
                 k = fr.locals[int(mm.group(1))]
-        x = ex.fresh_var("X", "B")
+                break
+        # one Boolean per distinct pair of placements (intersects is a function of its arguments)
+        if not hasattr(ex, "record_x") or ex.record_x.get("__log__") is not ex.record_intersects:
+            ex.record_x = {"__log__": ex.record_intersects}
+        key = tuple(z.id if T.is_t(z) else ("c", z) for z in list(p.fields) + list(q.fields))
+        x = ex.record_x.get(key)
+        if x is None:
+            x = ex.fresh_var("X", "B")
+            ex.record_x[key] = x
         ex.record_intersects.append(dict(k=k, p=list(p.fields), q=list(q.fields), x=x, fn=fr.fn.name, pc=list(st.pc)))
         return x
     return T.uf("X", list(p.fields) + list(q.fields), "B")
